@@ -266,21 +266,24 @@ Definition ex_term_flow1 : flow :=
      f_nodes := [ {| n_id := 101; n_actions := [AEnterFlow 2 true]; n_router := None; n_exits := [{| e_id := 1011; e_dest := None |}] |} ] |}.
 Definition ex_term_assets : assets := {| a_flows := [ex_term_flow1; ex_flow2]; a_opts := ex_opts |}.
 
-Example ex_terminal_then_expiration : exists x1 x2,
-  start ex_term_assets TManual 1 = ROk x1 /\
-  map r_status (s_runs (session_ x1)) = [RCompleted; RWaiting] /\
-  resume_session ex_term_assets (session_ x1) RExpiration [] = Resumed (ROk x2) /\
+Definition ex_term_started : result_ := Eval vm_compute in start ex_term_assets TManual 1.
+Definition ex_term_s1 : session := match ex_term_started with ROk x => session_ x | _ => new_session TManual 1 end.
+
+Example ex_terminal_enter : exists x1, start ex_term_assets TManual 1 = ROk x1 /\ session_ x1 = ex_term_s1 /\
+  map r_status (s_runs ex_term_s1) = [RCompleted; RWaiting] /\ s_status ex_term_s1 = SWaiting.
+Proof. vm_compute. eexists; repeat split. Qed.
+
+Example ex_terminal_then_expiration : exists x2,
+  resume_session ex_term_assets ex_term_s1 RExpiration [] = Resumed (ROk x2) /\
   s_status (session_ x2) = SCompleted /\ map r_status (s_runs (session_ x2)) = [RCompleted; RExpired] /\
-  map r_exited (s_runs (session_ x2)) = [true; true] /\ reachable (session_ x2).
+  map r_exited (s_runs (session_ x2)) = [true; true].
+Proof. vm_compute. eexists; repeat split. Qed.
+
+Example ex_terminal_then_expiration_reachable : exists x2,
+  resume_session ex_term_assets ex_term_s1 RExpiration [] = Resumed (ROk x2) /\ reachable (session_ x2).
 Proof.
-  assert (H1 : exists x1, start ex_term_assets TManual 1 = ROk x1) by (vm_compute; eexists; reflexivity).
-  destruct H1 as (x1 & H1).
-  assert (H2 : exists x2, resume_session ex_term_assets (session_ x1) RExpiration [] = Resumed (ROk x2)).
-  { revert H1. vm_compute. intros H1; inversion H1; subst. vm_compute. eexists; reflexivity. }
-  destruct H2 as (x2 & H2). exists x1, x2.
-  assert (R : reachable (session_ x2)) by (eapply reach_resume; [eapply reach_start; exact H1|exact H2]).
-  revert H1 H2 R. vm_compute. intros H1; inversion H1; subst. vm_compute. intros H2; inversion H2; subst. intros R.
-  repeat split; try reflexivity. exact R.
+  destruct ex_terminal_then_expiration as (x2 & H2 & _). exists x2. split; [exact H2|].
+  destruct ex_terminal_enter as (x1 & H1 & E1 & _). eapply reach_resume; [|exact H2]. rewrite <- E1. eapply reach_start; exact H1.
 Qed.
 
 (* [reachable] really is wider than [reachable_in]: the second call runs against another store *)
